@@ -163,7 +163,7 @@ Lemma monotonic_steps sp src : forall n d i outs d',
 Proof.
   induction n as [|n IH]; intros d i outs d' H.
   - cbn in H. now inversion H.
-  - cbn [steps monotonic step] in H. cbn [rebuild].
+  - rewrite steps_S in H. cbn [monotonic step] in H. cbn [rebuild].
     destruct (update_deque sp (par src) d i (at_ (sn src 0) i)) as [|[j v] t] eqn:Eu; [inversion H|].
     destruct (steps (monotonic sp) src ((j, v) :: t) (S i) n) as [os r] eqn:E.
     inversion H; subst. eapply IH; eauto.
